@@ -2,15 +2,18 @@
 # writes /tmp/seed/<id>.task.md : the brief for an independent seeding sub-agent (property text only)
 import json, sys
 props = {json.loads(l)['id']: json.loads(l) for l in open('/verif/properties.jsonl')}
-for i in sys.argv[1:]:
-    p = props[i]
+for arg in sys.argv[1:]:
+    # "C30" or "C30:b" (second round: directory C30b, property C30)
+    pid, _, suf = arg.partition(':')
+    i = pid + suf
+    p = props[pid]
     open(f'/tmp/seed/{i}.task.md', 'w').write(f"""# Task: seed a realistic property-breaking change into pdfcpu
 
 You work ONLY inside the git worktree `/tmp/seed/{i}` (a checkout of the pdfcpu Go library + CLI).
 Never read or write `/repo` or `/verif`. Never use `git stash` (the stash is shared with other worktrees of the same repository): to test without your change use `git diff > /tmp/seed/{i}.out/patch.diff && git apply -R /tmp/seed/{i}.out/patch.diff`, and `git apply` it again afterwards. Work offline: every shell call needs
 `export GOFLAGS=-mod=mod GOPROXY=off` (do NOT set GOTOOLCHAIN or GOSUMDB; the go.mod selects go 1.25.0 from the module cache).
 
-## The property (id {i}): {p['title']}
+## The property (id {pid}): {p['title']}
 
 {p['statement']}
 
@@ -36,7 +39,7 @@ untouched tree, showing the property violation concretely. Put it somewhere it c
 
 - `/tmp/seed/{i}.out/patch.diff` : `git diff` of the source change ONLY (no demo files), applicable with `git apply` at the repository root.
 - `/tmp/seed/{i}.out/demo/...` : the demonstration file(s), plus `/tmp/seed/{i}.out/demo/RUN.md` saying where to copy them and the exact command to run.
-- `/tmp/seed/{i}.out/meta.json` : {{"property": "{i}", "summary": "...what the change does...", "needs": "...what specific condition makes it manifest...", "files": [...], "suite": "the test-suite result you observed with the change", "demo_with": "demo result with change", "demo_without": "demo result without change"}}
+- `/tmp/seed/{i}.out/meta.json` : {{"property": "{pid}", "summary": "...what the change does...", "needs": "...what specific condition makes it manifest...", "files": [...], "suite": "the test-suite result you observed with the change", "demo_with": "demo result with change", "demo_without": "demo result without change"}}
 
 Verify all of it yourself before finishing: suite passes with the change (except the one pre-existing failure), demo fails with it, demo passes
 after `git stash`/reverting the source change. Leave the worktree with your change applied. Keep your final answer short: the summary, what it needs to manifest, and the verification results.
